@@ -104,9 +104,18 @@ namespace vf
             return id;
         }
 
+        int cur_node_ = -1, cur_op_ = -1;
+        const char* cur_phase_ = "";
+
         void run(const std::vector<World>& inits)
         {
             auto t0 = std::chrono::steady_clock::now();
+            install_crash_handler();
+            crash_hook() = [this](const char* what) {
+                Errs e;
+                e.add("crash", std::string("the process died with ") + what + " " + cur_phase_);
+                if (cur_node_ >= 0) report(e, cur_node_, cur_op_, cur_op_ >= 0 ? "operation " + ops[size_t(cur_op_)].name : std::string("state"));
+            };
             for (size_t wi = 0; wi < inits.size(); ++wi)
             {
                 const World& w = inits[wi];
@@ -138,6 +147,7 @@ namespace vf
                     }
                     World w = worlds[cur];
                     Errs e;
+                    cur_node_ = int(cur); cur_op_ = int(oi); cur_phase_ = "during the operation";
                     bool ok = ops[oi].f(w, e);
                     if (take_asan()) e.add("asan", "AddressSanitizer report during the operation");
                     if (!ok && e.empty()) { ++inapplicable; continue; }
@@ -163,6 +173,7 @@ namespace vf
                     {
                         if (depth + 1 > depth_reached) depth_reached = depth + 1;
                         Errs q;
+                        cur_phase_ = "while querying the state the operation produced";
                         check_state(worlds[size_t(id)], q);
                         if (take_asan()) q.add("asan", "AddressSanitizer report while querying the state");
                         if (!q.empty())
@@ -188,6 +199,10 @@ namespace vf
         // replay a ';'-separated list of operation names from the first initial world; prints what happens
         bool replay(const std::vector<World>& inits, const std::string& tr)
         {
+            install_crash_handler();
+            crash_hook() = [this, tr](const char* what) {
+                violation(prop + "/" + inst + "/replay/crash", std::string("the process died with ") + what + " while replaying [" + tr + "]", {"--replay", inst, tr});
+            };
             std::vector<std::string> names;
             size_t p = 0;
             while (p <= tr.size() && !tr.empty())
